@@ -238,8 +238,11 @@ def check_reject(case, ctx):
         hrp_s, data, const = raw
         low = s.lower()
         syms = [CS.index(c) for c in low[low.rfind("1") + 1:]]
+        if not hasattr(B, "bech32_verify_checksum"):
+            ctx.count("bech32_verify_checksum-absent")
+            return
         st_, spec = call(B.bech32_verify_checksum, hrp_s, syms)
-        name = None if (st_ == "exc" or spec is None) else spec.name
+        name = None if (st_ == "exc" or spec is None) else getattr(spec, "name", str(spec))
         wantname = {1: "BECH32", M: "BECH32M"}.get(const)
         if name != wantname:
             raise Violation("C11/verify/constant", "bech32_verify_checksum for constant %#x returned %r, expected %r"
